@@ -28,7 +28,9 @@ REG = Registry(
 def g_project(draw):
     C, F = gen.dims(draw, maxC=4, maxF=3)
     r = gen.rng(draw)
-    scales = gen.feature_scales(draw, F, lo=-2, hi=2)
+    # features in any unit: standard deviations 1e-6 .. 1e2 (covariances down to 1e-12, below the default floor of
+    # training, which has no say in what a projection under the machine's CURRENT sigma is)
+    scales = gen.feature_scales(draw, F, lo=gen.choice(draw, [-2, -2, -6]), hi=2)
     ubm = gen.gmm_params(draw, C, F, scales=scales, kmax=5.0)
     R = gen.integer(draw, 1, 4)
     t_scale = 10.0 ** gen.choice(draw, [0, -1, 1, -2])
@@ -37,6 +39,8 @@ def g_project(draw):
     items = [gen.fractional_stats(draw, C, F, ubm["means"], ubm["variances"], r=r, zero_prob=gen.choice(draw, [0.0, 0.3]))
              for _ in range(gen.integer(draw, 1, 4))]
     c = {"ubm": ubm, "T": T, "sigma": sigma, "items": items, "stats_layout": gen.choice(draw, ["C", "C", "F", "strided"])}
+    # the machine's training floor: default, or a value above some / all of the covariances it currently holds
+    c["variance_floor"] = float(gen.choice(draw, [1e-10, 1e-10, float(np.median(sigma)), 10.0 * float(sigma.max())]))
     if float(scales.min()) >= 3 and gen.choice(draw, [False, True]):
         # integral covariance values (and, when large enough, integral T) handed over as integer-typed arrays
         c["sigma"] = np.maximum(np.rint(sigma), 1.0)
@@ -54,9 +58,11 @@ def c_project(ctx, case):
 
     p = case["ubm"]
     ubm = sut.make_gmm(p)
-    m = IVectorMachine(ubm, dim_t=case["T"].shape[2])
+    m = IVectorMachine(ubm, dim_t=case["T"].shape[2], variance_floor=float(case.get("variance_floor", 1e-10)))
     m.T = np.array(case["T"])
     m.sigma = np.array(case["sigma"])
+    if (np.asarray(case["sigma"]) < float(case.get("variance_floor", 1e-10))).any():
+        ctx.event("sigma below the training floor")
     if case.get("int_params"):
         m.sigma = np.array(case["sigma"]).astype(np.int64)
         if "T" in case["int_params"]:
